@@ -1861,6 +1861,11 @@ class ProbeStream(Stream):
     name = "probes"
     KINDS = ["MultiDict", "ImmutableMultiDict", "Headers", "HeaderSet", "ImmutableDict", "ImmutableTypeConversionDict", "ImmutableList", "CombinedMultiDict", "FileMultiDict", "TypeConversionDict"]
     ASPECTS = ["copy.copy", "copy()", "deepcopy", "pickle2", "pickle5", "eq", "eqhash"]
+    # F08h (repaired by 27361e1): deepcopy of a CombinedMultiDict used to be an unusable object
+    corpus = [
+        {"kind": "CombinedMultiDict", "aspect": "deepcopy", "pairs": [["a", "1"], ["b", "x"], ["a", "2"]]},
+        {"kind": "CombinedMultiDict", "aspect": "deepcopy", "pairs": []},
+    ]
     HASHABLE = ["ImmutableMultiDict", "ImmutableDict", "ImmutableTypeConversionDict", "ImmutableList"]
     # inputs whose keys can be inserted in another order without changing the value
     EQH_PAIRS = [
@@ -2028,13 +2033,32 @@ class ProbeStream(Stream):
             c = copy.deepcopy(x)
         else:
             c = pickle.loads(pickle.dumps(x, int(asp[6:])))
-        documented_mutable_copy = asp in ("copy()", "copy.copy") and kind in ("ImmutableMultiDict", "CombinedMultiDict", "ImmutableDict", "ImmutableTypeConversionDict")
+        documented_mutable_copy = (asp in ("copy()", "copy.copy") and kind in ("ImmutableMultiDict", "CombinedMultiDict", "ImmutableDict", "ImmutableTypeConversionDict")) or (
+            # F08h (repaired by 27361e1): like copy(), deepcopy of a combined dict is a plain MultiDict
+            asp == "deepcopy" and kind == "CombinedMultiDict"
+        )
         try:
             if self.content(c) != before:
                 out.append("copy has different content")
         except Exception as e:  # noqa: BLE001
             out.append(f"reading the copy raises {type(e).__name__}")
             return ";".join(out)
+        if kind == "CombinedMultiDict" and asp == "deepcopy":
+            # F08h regression: a usable, independent MultiDict with the same items(multi=True),
+            # nested values included
+            if type(c).__name__ != "MultiDict":
+                out.append(f"deepcopy has type {type(c).__name__}")
+            if sorted(c.items(multi=True)) != sorted(x.items(multi=True)):
+                out.append("deepcopy has different items(multi=True)")
+            nested = ds.CombinedMultiDict([ds.MultiDict([("n", ["v"]), ("m", {"k": [1]})]), ds.MultiDict([("n", ["w"])])])
+            nc = copy.deepcopy(nested)
+            if [list(map(repr, v)) for _, v in sorted(nc.lists())] != [list(map(repr, v)) for _, v in sorted(nested.lists())]:
+                out.append("deepcopy of nested values differs")
+            nc.getlist("n")[0].append("changed")
+            nc["m"]["k"].append(2)
+            nc.add("n", "extra")
+            if nested.getlist("n") != [["v"], ["w"]] or nested["m"] != {"k": [1]}:
+                out.append("mutating nested values of the deep copy changed the original")
         if type(c) is not type(x) and not documented_mutable_copy and not (asp == "copy()" and kind in ("ImmutableList", "TypeConversionDict")):
             out.append(f"copy has type {type(c).__name__}")
         if type(c) is type(x) and kind not in ("HeaderSet", "CombinedMultiDict") and not (c == x):
@@ -2060,8 +2084,6 @@ class ProbeStream(Stream):
         pre = ""
         if kind == "HeaderSet" and asp == "copy.copy" and real_out == "mutating the copy changed the original":
             pre = "F08g: "
-        if kind == "CombinedMultiDict" and asp == "deepcopy" and "copy" in real_out:
-            pre = "F08h: "
         if kind == "CombinedMultiDict" and asp == "eq" and ("compare equal" in real_out):
             pre = "F08i: "
         return pre + f"{kind} {asp}: {real_out}"
@@ -2084,7 +2106,7 @@ CHECK = Check(
         "type conversion callables (get/getlist type=) are a parameter of the model; the streams use int on an optional sign + ASCII digits",
         "extended slices (step != 1), non-text keys and the deprecated OrderedMultiDict classes are outside the model",
         "copy / deepcopy / pickle / eq / hash are runtime behaviour: exercised by stream probes with the property oracle only (no Lean counterpart beyond copy = identity on the functional state)",
-        "known findings F08b, F08c (HeaderSet item assignment / constructor create case-duplicates), F08d (MultiDict key with zero values): negation witnesses proved, theorems carry the excluding hypotheses; F08g/F08h/F08i (copy.copy(HeaderSet) aliasing, CombinedMultiDict deepcopy / ==) are runtime behaviour checked by stream probes only",
+        "known findings F08b, F08c (HeaderSet item assignment / constructor create case-duplicates), F08d (MultiDict key with zero values): negation witnesses proved, theorems carry the excluding hypotheses; F08g/F08i (copy.copy(HeaderSet) aliasing, CombinedMultiDict ==) are runtime behaviour checked by stream probes only",
     ],
     trusted_extra=["CPython dict/list/str semantics for the modelled primitives (validated by the streams, not verified)"],
     quick_budget=60000,
@@ -2093,7 +2115,7 @@ CHECK = Check(
 
 MANIFEST = {
     "level_text": "Machine-checked Lean 4 refinement theorems: the transcribed MultiDict / Headers / HeaderSet methods refine the documented abstract models (insertion-ordered multimap, case-insensitive pair list, case-insensitive ordered set) for every operation history (Headers: every keyed mutator = a sequence of the atomic actions append / replace-first-drop-rest / drop-all up to the first refused value, hdr_refines); HeaderSet invariant preservation; Headers.set algebra; Immutable* blocker tables regenerated from the live classes and closed by decide. The transcriptions are tied to the code by exhaustive short-history correspondence streams and the property oracle (independent Python reference models) runs on the real code.",
-    "level_note": "Trusted: Lean kernel; extract.py; harness; CPython dict/list/str primitives (modelled, validated). copy/deepcopy/pickle/eq/hash checked by oracle only. Known findings F08b, F08c, F08d, F08g, F08h, F08i.",
+    "level_note": "Trusted: Lean kernel; extract.py; harness; CPython dict/list/str primitives (modelled, validated). copy/deepcopy/pickle/eq/hash checked by oracle only. Known findings F08b, F08c, F08d, F08g, F08i.",
     "technique": "Lean 4 proof (refinement by induction over operation histories, decide over regenerated tables) + model/code correspondence",
     "design_ref": "DESIGN.md section 4, C08",
 }
